@@ -12,68 +12,49 @@ open Fit.Msg Fit.Value Fit.Csv Fit.Gen Fit.Gen.Csv
 
 /-! ## columns -/
 
-/-- **Every line of the CSV has as many columns as the header** (without the trim option, whenever the writer
-does not panic — see `padPanics`: a comma inside an unquoted name/units cell): the writer pads each line with the
-missing separators. For ANY list of lines, of any lengths. -/
-theorem C19_columns (o : Opts) (ls : List Line) (ht : o.trim = false) (hp : padPanics o ls = false) :
+/-- **Every line of the CSV has as many columns as the header** (without the trim option): the writer pads each line
+with the missing separators, and a name or units cell containing a separator is quoted, so it stays one column
+(KF-C19-2, fixed: `record.compressed_speed_distance` has units "m/s,m", which used to make the pad count negative —
+a panic). For ANY list of lines, of any lengths. -/
+theorem C19_columns (o : Opts) (ls : List Line) (ht : o.trim = false) :
     ∀ c ∈ columns o ls, c = 3 + 3 * maxFields ls := by
   intro c hc
   simp only [columns, List.mem_cons, List.mem_map] at hc
   rcases hc with rfl | ⟨l, hl, rfl⟩
   · rfl
   · simp only [ht, Bool.false_eq_true, ↓reduceIte]
-    have : lineCells l ≤ 3 + 3 * maxFields ls := by
-      simp only [padPanics, ht, Bool.not_false, Bool.true_and, List.any_eq_false] at hp
-      have := hp l hl
-      simpa using this
+    have := nTriples_le_maxFields ls l hl
+    simp only [lineCells]
     omega
 
-/-- lines without a comma inside a name or units cell never make the writer panic: the pad count is never negative -/
-theorem C19_columns_no_panic (o : Opts) (ls : List Line) (h : ∀ l ∈ ls, extraCommas l = 0) : padPanics o ls = false := by
-  simp only [padPanics, Bool.and_eq_false_imp, Bool.not_eq_eq_eq_not, Bool.not_true, List.any_eq_false]
-  intro _ l hl
-  have := nTriples_le_maxFields ls l hl
-  simp only [lineCells, h l hl, decide_eq_true_eq]
-  omega
-
 /-- with the trim option no line is longer than the header (and the padding is left out: that is the option) -/
-theorem C19_columns_trim (o : Opts) (ls : List Line) (h : ∀ l ∈ ls, extraCommas l = 0) :
+theorem C19_columns_trim (o : Opts) (ls : List Line) :
     ∀ c ∈ columns o ls, c ≤ 3 + 3 * maxFields ls := by
   intro c hc
   simp only [columns, List.mem_cons, List.mem_map] at hc
   rcases hc with rfl | ⟨l, hl, rfl⟩
   · exact Nat.le_refl _
   · have := nTriples_le_maxFields ls l hl
-    have hl' : lineCells l ≤ 3 + 3 * maxFields ls := by simp only [lineCells, h l hl]; omega
+    simp only [lineCells]
     split <;> omega
 
 /-! ## values -/
 
 /-- **A scalar value survives the raw round trip** through its cell: whatever decoded scalar a field of base type
-`bt` holds (strings within the safe alphabet), writing it with `format` and reading the text back with `parseValue`
-gives the value itself (NaN payloads and non-0/1 bools in their normal form `csvNormS`) — for every integer width,
-boundary and invalid sentinel included. Exceptions stated as hypotheses: a sint32 cell whose units read "degrees" is
-converted as a position; a float field with a scale goes through the arithmetic; **sint64 scalars are excluded**: the
-writer prints them through `val.Uint64()`, i.e. always "-1" (finding KF-C19-1). -/
+`bt` holds (strings within the safe alphabet; the only NaN a float may hold is the FIT invalid value), writing it with
+`format` and reading the text back with `parseValue` gives the value itself (`csvNormS`: non-0/1 bools are the invalid
+255) — for every integer width, boundary and invalid sentinel included, sint64 too (KF-C19-1, fixed: it used to be printed
+through `val.Uint64()`, i.e. "-1"). Exceptions stated as hypotheses: a sint32 cell whose units read "degrees" is
+converted as a position; a float field with a scale goes through the arithmetic. -/
 theorem C19_scalar_roundtrip_raw (ar : Arith) (bt : Nat) (isBool : Bool) (scale offset : Nat) (units : Txt) (v : Value)
     (h : scalarOK bt isBool v = true) (hu : ¬(units = degreesTxt ∧ bt = btSint32))
-    (hf : (bt = btFloat32 ∨ bt = btFloat64) → isScaledField scale offset = false)
-    (h64 : ∀ x, v ≠ .int64 x) :
+    (hf : (bt = btFloat32 ∨ bt = btFloat64) → isScaledField scale offset = false) :
     parseCellValue ar (cellPieces (formatAtoms v)) bt isBool false scale offset units = .ok (csvNormS v) :=
-  scalar_rt ar bt isBool scale offset units v h hu hf h64
+  scalar_rt ar bt isBool scale offset units v h hu hf
 
-/-- the full statement (every decoded scalar, sint64 included) — FALSE on the pinned tree -/
-def C19_scalar_roundtrip_raw_full : Prop :=
-  ∀ (ar : Arith) (bt : Nat) (isBool : Bool) (scale offset : Nat) (units : Txt) (v : Value),
-    scalarOK bt isBool v = true → ¬(units = degreesTxt ∧ bt = btSint32) →
-    ((bt = btFloat32 ∨ bt = btFloat64) → isScaledField scale offset = false) →
-    parseCellValue ar (cellPieces (formatAtoms v)) bt isBool false scale offset units = .ok (csvNormS v)
-
-/-- KF-C19-1: the sint64 value 834197 is written "-1" and comes back as −1 -/
-theorem C19_int64_witness : ¬ C19_scalar_roundtrip_raw_full := by
-  intro h
-  have := h Arith.id btSint64 false Csv.f64One 0 [] (.int64 834197) (by decide) (fun hh => absurd hh.2 (by decide)) (by decide)
-  revert this
+/-- the former witness of KF-C19-1: the sint64 value 834197 comes back as itself -/
+theorem C19_int64_fixed :
+    parseCellValue Arith.id (cellPieces (formatAtoms (.int64 834197))) btSint64 false false Csv.f64One 0 [] = .ok (.int64 834197) := by
   decide +kernel
 
 /-- non-vacuity: the invalid uint16 of a field with scale 1 -/
